@@ -27,7 +27,7 @@ import tempfile
 from harness.common import enc, dec
 
 RULE = ("chains of 1..5 templates; every level draws, per member name of a shared pool (ma..me plus, rarely, names "
-        "that are also attributes of mako's Namespace objects), one of {def, named block, nothing}, named blocks "
+        "that are also attributes of mako's Namespace objects), one of {def, named block, nothing}, named and anonymous blocks with buffered=\"True\" at 25-30%, named blocks "
         "nested in named/anonymous blocks or at body level, module attributes from {ax,ay,az}, a <%page args> "
         "signature over {pa,pb}, defs with 0-2 parameters (one signature per name along the chain, rarely deviating), module "
         "attribute values that are numbers or None/''/False/0, bodies and member contents made of literal tags [tN] (N unique per chain), "
@@ -137,11 +137,12 @@ def emit_nodes(nodes, w, sig, where):
             w.w("</%def>")
         elif k == "b":
             n["line"] = w.line
+            buf = ' buffered="True"' if n.get("buf") else ""
             if n["n"] is None:
-                w.w("<%block>")
+                w.w("<%%block%s>" % buf)
                 emit_nodes(n["kids"], w, sig, "def" if where == "deftop" else where)
             else:
-                w.w('<%%block name="%s">' % n["n"])
+                w.w('<%%block name="%s"%s>' % (n["n"], buf))
                 emit_nodes(n["kids"], w, sig, "block" if where not in ("def", "deftop") else "def")
             w.w("</%block>")
         elif k == "x":
@@ -249,10 +250,25 @@ def enc_nodes(nodes, out):
     out.append("]")
 
 
+def buffered_blocks(nodes, names, lines):
+    """names of the buffered named blocks, source lines of the buffered anonymous blocks (layout done before)"""
+    for n in nodes:
+        if n["k"] == "b" and n.get("buf"):
+            if n["n"] is None:
+                lines.append(n["line"])
+            else:
+                names.append(n["n"])
+        if "kids" in n:
+            buffered_blocks(n["kids"], names, lines)
+
+
 def enc_levels(case):
     out = []
     for lv in case["levels"]:
-        out += ["L", lv["inh"], enc_sig(lv["sig"]), enc_kws(lv["attrs"])]
+        names, lines = [], []
+        buffered_blocks(lv["nodes"], names, lines)
+        out += ["L", lv["inh"], enc_sig(lv["sig"]), enc_kws(lv["attrs"]),
+                "/".join(enc(x) for x in names) if names else "-", enc_vals(lines)]
         enc_nodes(lv["nodes"], out)
     return " ".join(out)
 
@@ -673,6 +689,8 @@ class Gen:
             placed = []
             for x in blocks:
                 b = self.nl({"k": "b", "n": x, "kids": self.content(i, rank[x], 2, in_def=False)})
+                if rng.random() < 0.3:
+                    b["buf"] = True
                 r = rng.random()
                 hosts = [h for h in placed if rank[h["n"]] < rank[x]]
                 if hosts and r < 0.4:
@@ -717,6 +735,8 @@ class Gen:
 
     def anon(self, kids):
         n = {"k": "b", "n": None, "kids": kids}
+        if self.rng.random() < 0.25:
+            n["buf"] = True
         if self.rng.random() < 0.93:
             n["nl"] = True
         return n
@@ -1050,6 +1070,11 @@ def shrink_case(case, fails, max_tests=250):
         strip_args(c)
         if c != cur and ok(c):
             cur, progress = c, True
+        # drop buffered flags
+        c = copy.deepcopy(cur)
+        strip_buf(c)
+        if c != cur and ok(c):
+            cur, progress = c, True
         # drop newlines
         c = copy.deepcopy(cur)
         strip_nl(c)
@@ -1065,6 +1090,16 @@ def strip_args(case):
                 n["pos"], n["kw"] = [], []
             if n["k"] == "d":
                 n["sig"] = []
+            if "kids" in n:
+                go(n["kids"])
+    for lv in case["levels"]:
+        go(lv["nodes"])
+
+
+def strip_buf(case):
+    def go(nodes):
+        for n in nodes:
+            n.pop("buf", None)
             if "kids" in n:
                 go(n["kids"])
     for lv in case["levels"]:
@@ -1414,6 +1449,13 @@ def report_check_violation(ctx, t):
 
 # fixed witnesses of the recorded findings (replayed on the implementation on every run) and of the rules
 WITNESSES = [
+    # regression corpus (F-C06-4, repaired in /repo 248d875): buffered blocks render in place
+    {"levels": [{"inh": "N", "sig": [], "attrs": [], "nodes": [{"k": "t", "v": 1}, {"k": "b", "n": None, "buf": True, "kids": [{"k": "t", "v": 2}]},
+                                                               {"k": "b", "n": "ma", "buf": True, "kids": [{"k": "t", "v": 3}]}, {"k": "t", "v": 4}]}],
+     "data": []},
+    {"levels": [{"inh": "S", "sig": [], "attrs": [], "nodes": [{"k": "b", "n": "ma", "buf": True, "kids": [{"k": "t", "v": 1}]}]},
+                {"inh": "N", "sig": [], "attrs": [], "nodes": [{"k": "t", "v": 2}, {"k": "b", "n": "ma", "kids": [{"k": "t", "v": 3}]}, {"k": "t", "v": 4}]}],
+     "data": []},
     # rules, not findings: `local` in an intermediate template is that template (its own definition of ma wins over T0's)
     {"levels": [{"inh": "S", "sig": [], "attrs": [], "nodes": [{"k": "d", "n": "ma", "kids": [{"k": "t", "v": 1}]}]},
                 {"inh": "S", "sig": [], "attrs": [], "nodes": [{"k": "d", "n": "ma", "kids": [{"k": "t", "v": 2}]},
@@ -1478,7 +1520,7 @@ def run(ctx):
     def nsattrs_table():
         # the regenerated table of Namespace attribute names against the live object
         names = sorted(NS_ATTRS) + POOL + ["body"]
-        o = ctx.driver().ask_many(["inh attrs p:0:%s L N - - [ ]" % enc(a) for a in names])
+        o = ctx.driver().ask_many(["inh attrs p:0:%s L N - - - - [ ]" % enc(a) for a in names])
         st = ctx.stream("corr.nsattrs", exhaustive=True)
         for a, r in zip(names, o):
             st["cases"] += 1
